@@ -22,7 +22,7 @@ func init() {
 		Rule: expRule + "C06 oracle: (a) the workload/IP relation with the flag equals the relation without it, point-wise; (b) a workload is marked unprotected in a direction iff no policy governs it there (absence from ExposedPeers() = protected); (c) every entry is realizable: for each hypothetical pod satisfying its selectors (any pod for entire-cluster) the workload's direction-only verdict contains the entry's connections, a named port of an egress entry meaning that name as declared by the hypothetical pod; " +
 			"non-trivial = at least one non-entire-cluster exposure entry was judged; distinct = world hash",
 		Assumptions:       []string{"a residual named port in an INGRESS entry names a port the real workload does not declare and denotes no point", "exposure analysis is NetworkPolicy-only (the tool refuses admin policies)", "selectors are evaluated by our own matcher; the entry's selectors are read through the public ExposedPeer API, its named ports through the verif alias export"},
-		NumCases:          func(tier string, _ int64) int { return tierN(tier, 500, 20000) },
+		NumCases:          func(tier string, _ int64) int { return tierN(tier, 2000, 40000) },
 		Run:               func(c *run.Ctx) { runExposure(c, "C06") },
 		MinNonTrivial:     100,
 		MinEffectiveShare: 0.5,
@@ -35,7 +35,7 @@ func init() {
 		Rule: expRule + "C07 oracle: for every protected (workload, direction) and every hypothetical pod, every point the model allows through a rule peer that is not covered by the documented omission (a peer whose pod and namespace selectors are non-empty pure label equalities that an existing workload in a matching namespace satisfies) must lie in the union of the workload's entire-cluster exposure and of the reported entries whose selectors the pod satisfies; " +
 			"non-trivial = some hypothetical pod was allowed a point through a non-omitted specific (non entire-cluster) rule; distinct = world hash",
 		Assumptions:       []string{"the omission is applied generously (matchLabels and single-value In both count as equalities), which can only make the oracle weaker, never raise an alarm", "same matcher / API reading as C06"},
-		NumCases:          func(tier string, _ int64) int { return tierN(tier, 500, 20000) },
+		NumCases:          func(tier string, _ int64) int { return tierN(tier, 2000, 40000) },
 		Run:               func(c *run.Ctx) { runExposure(c, "C07") },
 		MinNonTrivial:     100,
 		MinEffectiveShare: 0.5,
@@ -112,6 +112,40 @@ func genExposureWorld(g *rng.R, allowUnusedNs bool) *world.World {
 				}
 			}
 		}
+	}
+	// near-miss peers: selectors that an existing workload satisfies only in part (the refinement by real pods must not fire)
+	for i := range w.NetPols {
+		if !g.P(0.35) || len(w.Workloads) == 0 {
+			continue
+		}
+		x := rng.Pick(g, w.Workloads)
+		nsl := w.NsLabels(x.Ns)
+		peer := world.NPPeer{PodSel: &world.Sel{}, NsSel: &world.Sel{}}
+		if len(x.Labels) > 0 {
+			k := rng.Pick(g, world.SortedKeys(x.Labels))
+			peer.PodSel.ML = map[string]string{k: x.Labels[k]}
+		} else {
+			peer.PodSel.ML = map[string]string{"app": "a"}
+		}
+		nk := rng.Pick(g, world.SortedKeys(nsl))
+		peer.NsSel.ML = map[string]string{nk: nsl[nk]}
+		switch g.Intn(4) {
+		case 0: // namespace matchLabels satisfied, matchExpressions violated
+			peer.NsSel.ME = []world.Req{{Key: nk, Op: "NotIn", Vals: []string{nsl[nk]}}}
+		case 1:
+			peer.NsSel.ME = []world.Req{{Key: "zone", Op: "Exists"}}
+		case 2: // pod matchLabels satisfied, matchExpressions violated
+			peer.PodSel.ME = []world.Req{{Key: "role", Op: "In", Vals: []string{"x"}}}
+		default: // an extra equality nobody satisfies
+			peer.PodSel.ML["role"] = "x"
+		}
+		rule := world.NPRule{Peers: []world.NPPeer{peer}, Ports: []world.NPPort{{Port: rng.Pick(g, world.PortNums)}}}
+		if g.P(0.5) {
+			w.NetPols[i].Ingress = append(w.NetPols[i].Ingress, rule)
+		} else if w.NetPols[i].HasDirection(false) {
+			w.NetPols[i].Egress = append(w.NetPols[i].Egress, rule)
+		}
+		w.AddFeature("nearMissPeer")
 	}
 	if len(pool) > 1 {
 		for k := g.Intn(3); k > 0; k-- {
